@@ -70,6 +70,18 @@ impl ExWorld {
             return r;
         }
         match t[0] {
+            "probe_extra" => {
+                // see gw.rs: exported functions unknown to the model, called without any authorisation
+                let known: [&str; 5] = ["gateway", "execute", "__constructor", "gas_service", "send"];
+                let addrs: Vec<Address> = t[1].split(',').filter(|x| !x.is_empty() && *x != "-").map(|x| Addr::parse(x).sdk(&env)).collect();
+                let toks: Vec<(Address, i128)> = t[2].split(',').filter(|x| !x.is_empty() && *x != "-").map(|x| (Addr::parse(x).sdk(&env), 1i128)).collect();
+                let mut names = vec![];
+                if let Some(c) = self.example.clone() {
+                    names = probe_unknown_entry_points(&env, &c, "/repo/contracts/example/src/contract.rs", &known, &addrs, &toks);
+                }
+                let _ = self.app_events();
+                ("ok".into(), format!("probed={}", names.join(",")))
+            }
             "ex.new" => {
                 // ex.new <example-addr> <mini-addr> <gas-service-addr>   (the gateway must exist)
                 let gw = self.gw.gw.clone().expect("gateway first");
